@@ -170,7 +170,6 @@ static void gen_program(uint64_t rseed, uint64_t idx, const char *tier, sbuf_t *
   rng_t root = rng_make(rseed);
   rng_t r = rng_split(&root, "gen"), rs = rng_split(&root, "sched");
   int thorough = !strcmp(tier, "thorough");
-  (void)idx;
   sb_printf(o, "# m4sim engine=thr scenario=threads lib=%s\nlib %s\n", control ? "def" : "ts", control ? "def" : "ts");
   if (control) sb_printf(o, "control non_thread_safe_build\n");
   if (rng_chance(&r, 1, 2)) sb_printf(o, "knobs %d %d %d\n", 4096 << rng_below(&r, 4), 32768 << rng_below(&r, 3), 262144 << rng_below(&r, 4));
@@ -183,6 +182,27 @@ static void gen_program(uint64_t rseed, uint64_t idx, const char *tier, sbuf_t *
   int nt = nts[rng_below(&r, 8)];
   if (control && nt > 4) nt = 4;
   int nops = gen_nops();
+  if (!control && idx % 5 == 4) { /* focused case: 2-3 threads run the SAME operation in its deep regimes (smallest caches, dimensions beyond 256, PLE beyond L3/8), one or two calls each:
+                                     shared state that only the recursive / wide code paths touch */
+    const char *fop = gen_all_ops[(idx / 5) % (uint64_t)nops];
+    o->n = 0; if (o->s) o->s[0] = 0;
+    sb_printf(o, "# m4sim engine=thr scenario=threads lib=ts\nlib ts\nknobs 4096 32768 65536\n");
+    par_emit_cfg(o, &c);
+    nt = 2 + (int)rng_below(&r, 2);
+    for (int k = 0; k < nt; k++) {
+      int ncalls = 1 + (int)rng_below(&r, 2);
+      for (int i = 0; i < ncalls; i++) {
+        sbuf_t t = { 0 };
+        genopt_t g = { 400, rng_chance(&r, 1, 4) ? 6 : 0 };
+        g.deep = 1;
+        gen_case(&r, fop, &g, &t, 4 * (i % 3), 2 * (i % 3));
+        for (char *q = strtok(t.s, "\n"); q; q = strtok(NULL, "\n")) sb_printf(o, "thread %d %s\n", k, q);
+        free(t.s);
+        sb_printf(o, "thread %d freeall\n", k);
+      }
+    }
+    return;
+  }
   for (int k = 0; k < nt; k++) {
     int ncalls = 3 + (int)rng_below(&r, thorough ? 10 : 6);
     if (nt >= 8) ncalls = 2 + (int)rng_below(&r, 3);
